@@ -127,6 +127,8 @@ struct ListBox
 	static bool remove(T & o, int, const Handle & h) { return o.remove(h); }
 	static bool isEmpty(const T & o, int) { return o.empty(); }
 	template <typename Proto, typename F> static void forEach(const T & o, int, F f) { o.template forEach<Proto>(f); }
+	template <typename Proto, typename F> static bool forEachIf(const T & o, int, F f) { return o.template forEachIf<Proto>(f); }
+	static void adlSwap(T & a, T & b) { using std::swap; swap(a, b); }
 	template <typename ...A> static void invoke(T & o, int, A && ...a) { o(std::forward<A>(a)...); }
 };
 
@@ -140,6 +142,8 @@ struct DispBox
 	static bool remove(T & o, int k, const Handle & h) { return o.removeListener(k, h); }
 	static bool isEmpty(const T & o, int k) { return !o.hasAnyListener(k); }
 	template <typename Proto, typename F> static void forEach(const T & o, int k, F f) { o.template forEach<Proto>(k, f); }
+	template <typename Proto, typename F> static bool forEachIf(const T & o, int k, F f) { return o.template forEachIf<Proto>(k, f); }
+	static void adlSwap(T & a, T & b) { using std::swap; swap(a, b); }   // the queue has no swap of its own: std::swap (one move construction, two move assignments)
 	template <typename ...A> static void invoke(T & o, int k, A && ...a) { o.dispatch(k, std::forward<A>(a)...); }
 };
 
@@ -615,7 +619,7 @@ struct Interp : Sink
 			const int other = op.a % MAXOBJ;
 			if(!aliveObj(o) || !aliveObj(other)) return;
 			++counters.poolOps;
-			{ FaultArm arm; real(o).swap(real(other)); }
+			{ FaultArm arm; if(op.b == 1 && other != o) B::adlSwap(real(o), real(other)); else real(o).swap(real(other)); }
 			if(other != o) {
 				for(int s = 0; s < MAXSLOT; ++s) if(slotUsed[s]) { if(slotObj[s] == o) slotObj[s] = other; else if(slotObj[s] == other) slotObj[s] = o; }
 				for(int kk = 0; kk < NKEY; ++kk) for(int p = 0; p < NPROTO; ++p) lists[o][kk][p].swap(lists[other][kk][p]);
@@ -651,6 +655,7 @@ struct Interp : Sink
 
 	bool weakPending[MAXOBJ];
 
+	unsigned enumCalls = 0;
 	void enumerate(int o, int k, int p, std::vector<int> & seen)
 	{
 		switch(p) {
@@ -659,8 +664,24 @@ struct Interp : Sink
 		case 2: B::template forEach<void (const std::string &)>(real(o), k, Enum<std::function<void (const std::string &)> >(seen)); break;
 		case 3: B::template forEach<void (const Tr &, int)>(real(o), k, Enum<std::function<void (const Tr &, int)> >(seen)); break;
 		case 4: B::template forEach<void (Big)>(real(o), k, Enum<std::function<void (Big)> >(seen)); break;
-		default: break; // forEach<void (double)> itself resolves to the first prototype void (double) can be called with, void (int): nothing separate to enumerate
+		default: return; // forEach<void (double)> itself resolves to the first prototype void (double) can be called with, void (int): nothing separate to enumerate
 		}
+		// every other enumeration is repeated with forEachIf stopping after limit + 1 callbacks: a prefix of what forEach saw, and false iff it was stopped
+		if((++enumCalls & 1) == 0) return;
+		const size_t limit = (enumCalls >> 1) % 4;
+		std::vector<int> part;
+		bool r = true;
+		switch(p) {
+		case 0: r = B::template forEachIf<void ()>(real(o), k, EnumIf<std::function<void ()> >(part, limit)); break;
+		case 1: r = B::template forEachIf<void (int)>(real(o), k, EnumIf<std::function<void (int)> >(part, limit)); break;
+		case 2: r = B::template forEachIf<void (const std::string &)>(real(o), k, EnumIf<std::function<void (const std::string &)> >(part, limit)); break;
+		case 3: r = B::template forEachIf<void (const Tr &, int)>(real(o), k, EnumIf<std::function<void (const Tr &, int)> >(part, limit)); break;
+		case 4: r = B::template forEachIf<void (Big)>(real(o), k, EnumIf<std::function<void (Big)> >(part, limit)); break;
+		default: break;
+		}
+		std::vector<int> expect(seen.begin(), seen.begin() + (long)std::min(seen.size(), limit + 1));
+		if(part != expect || r != (seen.size() <= limit))
+			viol.raise("forEachIf-mismatch", "forEachIf<prototype " + std::to_string(p) + "> stopping after " + std::to_string(limit + 1) + " visited " + seq::join(part) + " and returned " + (r ? "true" : "false") + "; forEach enumerates " + seq::join(seen));
 	}
 	template <typename Fn>
 	struct Enum
@@ -682,6 +703,14 @@ struct Interp : Sink
 			else if(const K8 * f = cb.template target<K8>()) id = f->id;
 			seen.push_back(id);
 		}
+	};
+
+	template <typename Fn>
+	struct EnumIf
+	{
+		Enum<Fn> e; std::vector<int> & part; size_t limit;
+		EnumIf(std::vector<int> & s, size_t l) : e(s), part(s), limit(l) {}
+		bool operator() (const Fn & cb) const { e(cb); return part.size() <= limit; }
 	};
 
 	void adoptAfterFailedAssign(int o)
@@ -1168,7 +1197,7 @@ void generate(uint64_t seed, Plan & plan)
 			else if(q < 40) op = Op(O_COPY_ASSIGN, other, 0, 0, d);
 			else if(q < 54) op = Op(O_MOVE_CONSTRUCT, other, 0, 0, d);
 			else if(q < 68) op = Op(O_MOVE_ASSIGN, other, 0, 0, d);
-			else if(q < 82) op = Op(O_SWAP, other, 0, 0, d);
+			else if(q < 82) op = Op(O_SWAP, other, (int)rng.below(2), 0, d);
 			else if(q < 92) op = Op(O_DESTROY, 0, 0, 0, d);
 			else op = Op(O_CREATE, 0, 0, 0, d);
 			ops.push_back(op);
